@@ -307,6 +307,16 @@ def rule_deffirst(prog, rep):
                 continue
         kind = f.name.split("schema::")[-1].split(">")[0]
         ext = [c for c in f.live_calls() if re.search(r"::extend_ast$", c.name)]
+        # `extensions.iter().for_each(|ext| ty.extend_ast(errors, ext))`: the combinator call whose
+        # closure applies the extensions stands for the loop
+        for c in f.live_calls():
+            for a in c.args:
+                m = re.search(r"closure:.*?(\{closure#\d+\})", f.sym(a))
+                if not m:
+                    continue
+                for h in prog.fns.values():
+                    if h.kind == "closure" and h.parent == f.uid and h.name.endswith(m.group(1)) and any(re.search(r"::extend_ast$", k.name) for k in h.live_calls()):
+                        ext.append(c)
         if not ext:
             rep.finding("C13.DEFFIRST", f.name, "no-extend", "%s::from_ast does not apply the queued extensions" % kind, f.loc())
             continue
